@@ -88,7 +88,7 @@ def run_batch_real(params: Dict[str, Any]) -> Dict[str, Any]:
     im.deque = LoggingDeque
     old_si = sys.getswitchinterval()
     sys.setswitchinterval(params["switch"])
-    if params.get("perturb"):
+    if params.get("perturb") and params["perturb"] != "focus-enqueue":
         # schedule perturbation: random sub-millisecond yields at line boundaries of the transport /
         # job-queue modules in every thread started from here on (changes timing only)
         prng = random.Random(params["seed"] ^ 0x5EED)
@@ -114,6 +114,17 @@ def run_batch_real(params: Dict[str, Any]) -> Dict[str, Any]:
         transport = im.InMemorySemantivaTransport()
         lg = Logger()
         master = QueueSemantivaOrchestrator(transport=transport, logger=lg)
+
+        class _RecDict(dict):
+            """pending_futures with a record of every registration (a job may be finished -- and its entry gone --
+            before the caller of enqueue() gets to look)."""
+            registered: List[tuple] = []
+
+            def __setitem__(self, k, v):
+                _RecDict.registered.append((k, v))
+                return super().__setitem__(k, v)
+        _RecDict.registered = []
+        master.pending_futures = _RecDict(master.pending_futures)
         mt = threading.Thread(target=master.run_forever, daemon=True)
         stop = threading.Event()
 
@@ -132,10 +143,25 @@ def run_batch_real(params: Dict[str, Any]) -> Dict[str, Any]:
                 time.sleep(rng.random() * 0.004)
             before = set(master.pending_futures)
             log.append((next(seq), "enq", i + 1, None, None))
-            fut = master.enqueue(jb["nodes"], data=FloatDataType(jb["value"]), context=ContextType(dict(jb["ctx"])),
-                                 return_future=True)
+            if params.get("perturb") == "focus-enqueue":
+                # the caller is held at every line of enqueue() for longer than a job's whole round trip
+                # (publish -> worker -> status -> master): whatever enqueue does must be in place before the job can finish
+                def _enq_tracer(frame, event, arg):
+                    if frame.f_code.co_name == "enqueue" and frame.f_code.co_filename.endswith("queue_orchestrator.py"):
+                        if event == "line":
+                            time.sleep(0.35)
+                        return _enq_tracer
+                    return None
+                sys.settrace(_enq_tracer)
+            try:
+                fut = master.enqueue(jb["nodes"], data=FloatDataType(jb["value"]), context=ContextType(dict(jb["ctx"])),
+                                     return_future=True)
+            finally:
+                if params.get("perturb") == "focus-enqueue":
+                    sys.settrace(None)
             new = set(master.pending_futures) - before
-            jid = next((k for k, v in list(master.pending_futures.items()) if v is fut), None) or (next(iter(new)) if new else None)
+            jid = next((k for k, v in list(_RecDict.registered) if v is fut), None) \
+                or next((k for k, v in list(master.pending_futures.items()) if v is fut), None) or (next(iter(new)) if new else None)
             ids.append(jid)
             fut.add_done_callback(lambda f, i=i: log.append((next(seq), "resolve", i + 1, None,
                                                               "error" if f.exception() is not None else "result")))
@@ -253,11 +279,14 @@ def check(tier: str) -> int:
     nb = 64 if tier == "quick" else 600
     for b in range(nb):
         n = rng.choice([1, 2, 3, 4, 5, 6, 8, 12]) if b % 12 else (40 if tier != "quick" or b in (0, 36) else 20)
+        slow_enqueue = b % 16 == 5          # a few small batches with the caller held inside enqueue()
+        if slow_enqueue:
+            n = 2
         # a failing job at every position over the batches of one size, plus batches without failures
         fail_at = [] if b % 4 == 3 else sorted({b % n} | ({rng.randrange(n)} if rng.random() < 0.3 else set()))
         plist.append({"seed": core.seed() * 9973 + b, "njobs": n, "nworkers": rng.randint(1, 4),
                       "switch": 10 ** rng.uniform(-6, -2.3), "fail_at": fail_at, "timeout": 90.0,
-                      "perturb": [0, 0.05, 0.25, "focus"][b % 4]})
+                      "perturb": "focus-enqueue" if slow_enqueue else [0, 0.05, 0.25, "focus"][b % 4]})
     hist = []
     for chunk in pmap(batch_chunk, plist, chunk=3, tasks_per_child=4):
         hist += chunk
